@@ -433,7 +433,7 @@ def analyse(ctx, which):
     ctx.extra.setdefault("resend_inlined_helpers", {})[which] = sorted(hot)
     rule = ResendRule(m, m.method(f"{PM}.PoolManager", "urlopen") if which == "proxymanager" else fi, hot)
     rule.fold = ctx.fold
-    it = Interp(m, rule, cls, fi.module, frozenset(hot), budget=Budget(800000))
+    it = Interp(m, rule, cls, fi.module, frozenset(hot), budget=Budget(2500000))
     it.func_qual = fi.qual
     it.record_decisions = True
     st = State()
